@@ -607,7 +607,10 @@ impl Stdfs {
 
         // Iterate over source taking into account link following
         let src_root = StdfsEntry::from(&src_root)?.follow(cp.follow);
-        for entry in Stdfs::entries(src_root.path())?.follow(cp.follow) {
+        // (collected up front: the destination may lie inside the source, which must not be re-read
+        // while it is being written)
+        let entries = Stdfs::entries(src_root.path())?.follow(cp.follow).into_iter().collect::<Vec<_>>();
+        for entry in entries {
             let src = entry?;
 
             // Set destination path based on source path
